@@ -16,7 +16,7 @@ NAMES = [None, None, 'worker', 'pool-1', 'ignored-a', 'ignored-b', 'Dummy-x', 'b
 IGNORE = [[], [], ['ignored-'], ['ignored-a$', 'pool'], ['.*'], ['Dummy-'], ['Thread-\\d+'], ['xyz'],
           ['orker', '-1$'], ['thread', '\\d'], ['-b', 'ummy'], ['WORKER', 'ignored$']]   # documented: *match* mode
 
-RE_THREAD = re.compile(r'<_?(?:Dummy|Main)?Thread\((.*?), started (?:daemon )?(\d+)\)>')
+RE_THREAD = re.compile(r'<\w*Thread\((.*?), started (?:daemon )?(\d+)\)>')
 RE_DUMMY = re.compile(r'DummyThread (\d+), started, daemon')
 
 
@@ -25,6 +25,7 @@ def cases(draw):
     ntests = draw(st.integers(1, 6))
     tests = []
     open_tags = []     # threads held and not yet released
+    renamable = set()
     tag = 0
     for i in range(ntests):
         t = {'n': 'test_%02d' % i, 'k': draw(st.sampled_from(['pass', 'pass', 'pass', 'fail', 'error', 'skip_body'])),
@@ -42,6 +43,8 @@ def cases(draw):
             if a['api'] == '_thread':
                 a['name'] = None
                 a['register'] = draw(st.booleans())
+            elif draw(st.integers(0, 5)) == 0:
+                a['falsy'] = True
             ph = draw(st.sampled_from(['setUp', 'body', 'body', 'tearDown']))
             if t['k'] == 'skip_body' and ph == 'body':
                 pass
@@ -52,6 +55,11 @@ def cases(draw):
             if a['hold'] and draw(st.integers(0, 3)) == 0:
                 phases['tearDown'].append(['thread', {'op': 'release', 'tag': a['tag']}])
                 a['_released_same_test'] = True
+        # a thread object left by an earlier test gets another name (pools rename their workers per job)
+        for g in open_tags:
+            if g not in rel and g in renamable and draw(st.integers(0, 3)) == 0:
+                phases[draw(st.sampled_from(['setUp', 'body', 'tearDown']))].append(
+                    ['thread', {'op': 'rename', 'tag': g, 'name': draw(st.sampled_from(NAMES[2:] + ['job-7']))}])
         relacts = [['thread', {'op': 'release', 'tag': g}] for g in rel]
         if release_first:
             phases['setUp'] = relacts + phases['setUp']
@@ -62,6 +70,8 @@ def cases(draw):
         for ph, a in starts:
             if a['hold'] and not a.pop('_released_same_test', False):
                 open_tags.append(a['tag'])
+                if a['api'] == 'threading':
+                    renamable.add(a['tag'])
         t['acts'] = {k: v for k, v in phases.items() if v}
         tests.append(t)
     spec = {'layers': [], 'modules': [{'name': 'a', 'tree': {'t': 's', 'ch': [
@@ -69,6 +79,11 @@ def cases(draw):
     opts = {'ignore_threads': draw(st.sampled_from(IGNORE)), 'verbose': draw(st.integers(0, 2)),
             'buffer': draw(st.sampled_from([False, False, True]))}
     return {'spec': spec, 'opts': opts}
+
+
+def _iter_tests(spec):
+    from .. import gen
+    return gen.iter_tests(spec)
 
 
 def oracle(spec, opts, run):
@@ -81,6 +96,7 @@ def oracle(spec, opts, run):
     released_in = {}    # tag -> test in which it was released
     cur = None
     order = []
+    renamed = False
     for e in run.trace:
         if e['ev'] == 'T' and e['ph'] == 'setUp':
             cur = e['s']
@@ -89,6 +105,11 @@ def oracle(spec, opts, run):
             started[e['tag']] = dict(test=cur, ident=e['ident'], name=e['name'], api=e['api'], hold=e['hold'])
         elif e['ev'] == 'thread_released':
             released_in[e['tag']] = cur
+        elif e['ev'] == 'thread_renamed':
+            # (generated in tests after the one that started the thread: the thread existed before, whatever it is called)
+            renamed = True
+            if started.get(e['tag'], {}).get('test') == cur:
+                started[e['tag']]['name'] = e['name']
     pats = opts.get('ignore_threads') or []
     expected = {}       # test str -> set of idents
     reuse = False
@@ -133,6 +154,12 @@ def oracle(spec, opts, run):
                          '(expected %s)' % (test, ident, sorted(e))))
     if reuse:
         labels.append('ident-reuse')
+    if renamed:
+        labels.append('earlier-thread-renamed')
+    if any(e['ev'] == 'T' and e['ph'] == 'setUp' for e in run.trace) and any(
+            a[1].get('falsy') for _, t in _iter_tests(spec) for acts in (t.get('acts') or {}).values() for a in acts
+            if a[0] == 'thread'):
+        labels.append('falsy-thread-object')
     nleak_tests = len(expected)
     rel_in_leaking = any(released_in.get(tag) in expected and started[tag]['test'] != released_in.get(tag)
                          for tag in released_in)
@@ -140,7 +167,7 @@ def oracle(spec, opts, run):
         labels.append('release-in-leaking-test')
     if nleak_tests:
         labels.append('leaks')
-    return viol, labels, rel_in_leaking
+    return viol, labels, rel_in_leaking or (renamed and bool(pats))
 
 
 class InProc(Part):
@@ -170,8 +197,9 @@ class C19(Prop):
     level_note = ('The schedule is owned by the world (deterministic liveness at test boundaries); true races inside '
                   'threadsupport.enumerate() are not explored; only Python 3.12 thread repr formats are parsed.')
     rule = ('Hypothesis histories: 1..6 tests, 0..3 thread starts per test (API, name, hold/join, phase; raw threads with or without a threading._DummyThread entry), releases of '
-            'earlier leaks at the beginning or end of later tests, 8 ignore-pattern sets. Non-trivial = a leak from an '
-            'earlier test is released in a test that itself leaks. Distinct by hash of the case.')
+            'earlier leaks at the beginning or end of later tests, renames of threads left by earlier tests, Thread subclasses '
+            'that are false in a boolean context, 12 ignore-pattern sets. Non-trivial = a leak from an '
+            'earlier test is released in a test that itself leaks, or an earlier thread is renamed while ignore patterns are in use. Distinct by hash of the case.')
     assumptions = ('a thread counts as ended once it left sys._current_frames() and (for Thread objects) was joined',)
     parts = (InProc(),)
 
